@@ -18,16 +18,16 @@ def pairing(ctx, rule):
     ctx.check(ok, rule, fn, "not-identifier->None", "nothing is returned when the given name is not a JavaScript identifier")
     its = [sh for l in sorted(b.var_names) for sh, _, _ in q.def_shapes(b, l, {}) if sh.startswith("Iterator::peekable(")]
     ctx.check(its == ["Iterator::peekable(Iterator::take(SourceView::rev_token_iter(arg1,arg2),128))"], rule, fn, "window:128", "the walk goes backwards from the looked-up token over at most 128 tokens", detail=str(its))
-    NEXT0 = "some(Iterator::next(var:Peekable<Take<RevTokenIter<>>>))"
+    NEXT0 = "try(Iterator::next(var:Peekable<Take<RevTokenIter<>>>))"
     tok = [l for l in sorted(b.var_names) if l > b.arg_count and [sh for sh, _, _ in q.def_shapes(b, l, {})] == [NEXT0 + ".0"]]
     ident = [l for l in sorted(b.var_names) if [sh for sh, _, _ in q.def_shapes(b, l, {})] == [NEXT0 + ".1"]]
-    item = [l for l in sorted(b.var_names) if [sh for sh, _, _ in q.def_shapes(b, l, {})] == ["some(Peekable::peek(var:Peekable<Take<RevTokenIter<>>>))"]]
+    item = [l for l in sorted(b.var_names) if [sh for sh, _, _ in q.def_shapes(b, l, {})] == ["try(Peekable::peek(var:Peekable<Take<RevTokenIter<>>>))"]]
     if not ctx.check(len(tok) == 1 and len(ident) == 1 and len(item) == 1, rule, fn, "roles", "current token, its text and the peeked element are recognisable"):
         return
     roles = {tok[0]: "cur", ident[0]: "cur_text", item[0]: "peeked"}
     d = {n: [sh for sh, _, _ in q.def_shapes(b, l, {})] for l, n in roles.items()}
-    NEXT = "some(Iterator::next(var:Peekable<Take<RevTokenIter<>>>))"
-    ctx.check(d["cur"] == [NEXT + ".0"] and d["cur_text"] == [NEXT + ".1"] and d["peeked"] == ["some(Peekable::peek(var:Peekable<Take<RevTokenIter<>>>))"], rule, fn, "roles:defs",
+    NEXT = "try(Iterator::next(var:Peekable<Take<RevTokenIter<>>>))"
+    ctx.check(d["cur"] == [NEXT + ".0"] and d["cur_text"] == [NEXT + ".1"] and d["peeked"] == ["try(Peekable::peek(var:Peekable<Take<RevTokenIter<>>>))"], rule, fn, "roles:defs",
               "the current pair comes from next(), the preceding one from peek()", detail=str(d))
     somes = [(bi, q.shape(b.expr_of_rvalue(s["rv"]) if s["k"] == "assign" else b.expr_of_call(s), roles)) for bi, si, s, it in b.locations()
              if (not it and s["k"] == "assign" and s["place"]["l"] == 0 and not s["place"]["p"]) or (it and s["k"] == "call" and s["dest"]["l"] == 0 and not s["dest"]["p"])]
@@ -54,8 +54,8 @@ def rev_iter(ctx, rule):
     b = ctx.body(REV)
     fn = b.path
     # forward scan counters
-    CH = "some(Iterator::next(var:Chars))"
-    RCH = "some(Iterator::next(var:Rev<Chars>))"
+    CH = "try(Iterator::next(var:Chars))"
+    RCH = "try(Iterator::next(var:Rev<Chars>))"
 
     def counter(op, fn_name, item):
         out = []
@@ -82,7 +82,7 @@ def rev_iter(ctx, rule):
     ctx.check("Le(cast<usize>(Token::get_dst_col(%s)),U1)" % TOK in sw, rule, fn, "forward:stop", "the forward scan stops when the UTF-16 counter reaches the token's column", detail=str([s for s in sw if "U1" in s]))
     ctx.check("Le(Sub(var:(&str, usize, usize).1,cast<usize>(Token::get_dst_col(%s))),U2)" % TOK in sw, rule, fn, "backward:stop",
               "the backward scan covers (cached column - token column) UTF-16 units", detail=str([s for s in sw if "U2" in s]))
-    ctx.check("Eq(cast<usize>(Token::get_dst_line(%s)),some(arg1.source_line).1)" % TOK in sw, rule, fn, "cache:same-line", "the cached line is reused only for a token on the same generated line")
+    ctx.check("Eq(cast<usize>(Token::get_dst_line(%s)),try(arg1.source_line).1)" % TOK in sw, rule, fn, "cache:same-line", "the cached line is reused only for a token on the same generated line")
     # cached tuple order
     stores = [q.shape(b.expr_of_rvalue(s["rv"]), roles) for bi, si, s, it in b.locations() if not it and s["k"] == "assign" and s["place"]["p"] and s["place"]["p"][-1].get("n") == "source_line"]
     want = "Option::Some{0:tuple(var:(&str, usize, usize).0,cast<usize>(Token::get_dst_line(%s)),cast<usize>(Token::get_dst_col(%s)),var:usize)}" % (TOK, TOK)
@@ -140,7 +140,7 @@ def strip_shape(ctx, rule):
     if not ctx.check(len(end) == 1, rule, fn, "end", "one running end offset"):
         return
     roles = {end[0]: "END"}
-    IT = "some(Iterator::next(var:CharIndices))"
+    IT = "try(Iterator::next(var:CharIndices))"
     found = expect_defs(ctx, rule, b, end[0], roles, {"char::len_utf8(%s.1)" % IT: "first", "Add(%s.0,char::len_utf8(%s.1))" % (IT, IT): "next", "Add(char::len_utf8(%s.1),%s.0)" % (IT, IT): "next"}, ["first", "next"],
                         "end offset (always the start of a char of `s` plus its UTF-8 length: a char boundary)")
     for site in found.get("first", []):
@@ -168,7 +168,7 @@ def strip_shape(ctx, rule):
     ctx.check(ok, rule, v.path, "whole-string", "a string is an identifier exactly when stripping keeps its whole length", detail=str(rets))
     g = ctx.body("js_identifiers::get_javascript_token")
     calls = [q.shape(g.expr_of_call(t)) for bi, t in g.calls()]
-    ctx.check("js_identifiers::strip_identifier(some(Iterator::next(str::split_whitespace(arg1))))" in calls, rule, g.path, "first-word", "token text is the identifier at the start of the first whitespace-separated word", detail=str(calls))
+    ctx.check("js_identifiers::strip_identifier(try(Iterator::next(str::split_whitespace(arg1))))" in calls, rule, g.path, "first-word", "token text is the identifier at the start of the first whitespace-separated word", detail=str(calls))
 
 
 def fn_pf(ctx, rule):
